@@ -82,8 +82,11 @@ def _process_atomic(target: 'optstr') -> 'tuple':
 
 @spec
 def wf_branch(b: 'val') -> 'bool':
+    """a branch is (role, target); a target is an atom (None or str) or a node (var, branches)"""
     return (is_tuple(b) and len(b) == 2 and is_str(b[0])
-            and (b[1] is None or is_str(b[1]) or wf_node(b[1])))
+            and (b[1] is None or is_str(b[1])
+                 or (is_tuple(b[1]) and len(b[1]) == 2 and is_list(b[1][1])
+                     and forall_idx(b[1][1], lambda j, c: wf_branch(c)))))
 
 
 @spec
@@ -148,54 +151,48 @@ def read_node(t: 'val', variables: 'set', model: 'Model') -> 'list':
 
 
 @spec
-def firsts(entries: 'list') -> 'list':
-    if len(entries) == 0:
-        return []
-    return firsts(entries[:-1]) + [entries[-1][0]]
+def edge_triples(var: 'val', branch: 'val', variables: 'set', model: 'Model') -> 'list':
+    """the triples one branch denotes (the same reading as read_edge, triples only)"""
+    if is_atomic(branch[1]):
+        if (not has(model, role_part(branch[0]))) and role_part(branch[0]).endswith('-of') \
+                and atom_part(branch[1]) in variables:
+            return [deinv(model, (var, role_part(branch[0]), atom_part(branch[1])))]
+        return [(var, role_part(branch[0]), atom_part(branch[1]))]
+    return [deinv(model, (var, role_part(branch[0]), branch[1][0]))] + node_triples(branch[1], variables, model)
 
 
 @spec
-def alns_ok(t: 'val') -> 'bool':
-    """every alignment suffix in the tree is well-formed (the parser only produces such)"""
-    return forall_idx(t[1], lambda i, b: role_aln_ok(b[0])
-                      and (atom_aln_ok(b[1]) if is_atomic(b[1]) else alns_ok(b[1])))
+def edges_triples(var: 'val', edges: 'list', variables: 'set', model: 'Model') -> 'list':
+    if len(edges) == 0:
+        return []
+    return edges_triples(var, edges[:-1], variables, model) + edge_triples(var, edges[-1], variables, model)
+
+
+@spec
+def node_triples(t: 'val', variables: 'set', model: 'Model') -> 'list':
+    if concept_written(t[1]):
+        return edges_triples(t[0], t[1], variables, model)
+    return [(t[0], ':instance', None)] + edges_triples(t[0], t[1], variables, model)
+
+
+@spec
+def entries_shape(entries: 'val') -> 'bool':
+    """a list of (triple, [markers]) pairs"""
+    return is_list(entries) and forall_idx(entries, lambda i, e: is_tuple(e) and len(e) == 2 and is_list(e[1]))
 
 
 @contract('penman.layout:_interpret_node')
 def _interpret_node(t: 'val', variables: 'set', model: 'Model') -> 'tuple':
     requires(wf_node(t))
-    requires(alns_ok(t))
+    # (an ill-formed alignment suffix in a hand-built tree raises SurfaceError; the parser only
+    # produces well-formed ones)
+    raises(SurfaceError)
     ensures(len(result) == 3 and result[0] == t[0], label='var')
     ensures(result[2] == read_node(t, variables, model), label='reading')
-    ensures(result[1] == firsts(read_node(t, variables, model)), label='triples')
-    ensures(is_list(result[2]) and len(result[2]) >= 1, label='nonempty')
+    ensures(result[1] == node_triples(t, variables, model), label='triples')
+    ensures(entries_shape(result[2]) and len(result[2]) >= 1, label='nonempty')
     invariant(0, lambda: epidata == read_edges(var, edges[:_i], variables, model))
-    invariant(0, lambda: triples == firsts(read_edges(var, edges[:_i], variables, model)))
+    invariant(0, lambda: triples == edges_triples(var, edges[:_i], variables, model))
     invariant(0, lambda: has_concept == concept_written(edges[:_i]))
     invariant(0, lambda: var == t[0] and edges == t[1])
-
-
-# ---- layout diagnostics (C14) ---------------------------------------------------------------------
-
-@spec
-def markers_of(g_epidata: 'dict', triple: 'val') -> 'val':
-    """the marker list of a triple; a triple without an entry has none"""
-    return dict_get(g_epidata, triple, [])
-
-
-@spec
-def epis_wf(epis: 'val') -> 'bool':
-    return is_list(epis) and forall_idx(epis, lambda i, e: is_inst(e, 'Epidatum'))
-
-
-@contract('penman.layout:get_pushed_variable')
-def get_pushed_variable(g: 'Graph', triple: 'val') -> 'val':
-    requires(epis_wf(markers_of(g.epidata, triple)))
-    # the variable of the first Push marker on the triple, None without one (never raises: a triple
-    # without a marker entry answers None)
-    ensures(implies(forall_idx(markers_of(g.epidata, triple), lambda i, e: not is_inst(e, 'Push')), result is None))
-    ensures(implies(not forall_idx(markers_of(g.epidata, triple), lambda i, e: not is_inst(e, 'Push')),
-                    exists_idx(markers_of(g.epidata, triple),
-                               lambda j, e: is_inst(e, 'Push') and result == e.variable
-                               and forall_idx(markers_of(g.epidata, triple), lambda k, f: k >= j or not is_inst(f, 'Push')))))
-    invariant(0, lambda: forall_idx(markers_of(g.epidata, triple), lambda k, f: k >= _i or not is_inst(f, 'Push')))
+    invariant(0, lambda: entries_shape(epidata))
